@@ -195,8 +195,17 @@ func c01Sequence(count, maxN, k int) {
 	}
 	r := &fragReader{data: wire, cuts: c01Cuts("rcut", k, len(wire)), eofWith: sym.Bool("eof-with-data")}
 	off := 0
+	// the caller reads every message into a fresh variable, or keeps reading into the same one and
+	// collects what it got: the collected sequence must be the sequence written
+	reuse := sym.Bool("reader-reuses-one-message-variable")
+	var shared Message
+	var collected []Message
 	for i := 0; i < count; i++ {
-		var back Message
+		var fresh Message
+		back := &fresh
+		if reuse {
+			back = &shared
+		}
 		err := back.Read(r)
 		sym.Assert(err == nil, "seq-read-ok")
 		want := NewMessage(hdrs[i], pls[i])
@@ -204,6 +213,10 @@ func c01Sequence(count, maxN, k int) {
 		sym.Assert(sym.EqBytes(back.Payload, pls[i]), "seq-payload")
 		off += 28 + len(pls[i])
 		sym.Assert(r.pos == off, "seq-offset")
+		collected = append(collected, *back)
+	}
+	for i := range collected {
+		sym.Assert(sym.EqBytes(collected[i].Payload, pls[i]), "seq-collected-payload-altered-by-a-later-read")
 	}
 	var extra Message
 	sym.Assert(extra.Read(r) == io.EOF, "seq-eof-after-last")
